@@ -148,7 +148,19 @@ func newC03World(rt *rapid.T) *c03World {
 		propose(2, buildOutput(mk(2, sizeGen.Draw(rt, "n21")), 0, rapid.SliceOfN(rapid.Byte(), 32, 32).Draw(rt, "bh2")))
 	}
 	e.Advance(time.Duration(rapid.IntRange(0, 12).Draw(rt, "gap")) * time.Second)
-	o12 := buildOutput(append(mk(1, sizeGen.Draw(rt, "n12")), o11.Tuples[0]), byte(rapid.IntRange(0, 1).Draw(rt, "v2")), rapid.SliceOfN(rapid.Byte(), 32, 32).Draw(rt, "bh3"))
+	var o12 *mOutput
+	if rapid.IntRange(0, 3).Draw(rt, "deep") == 0 {
+		// a tree known through one leaf and its sibling path: depths around the 64 levels a u64 sequence space can fill, and beyond
+		depth := rapid.SampledFrom([]int{0, 1, 17, 31, 32, 33, 62, 63, 64, 65, 66, 80, 130}).Draw(rt, "depth")
+		sibs := make([][]byte, depth)
+		for i := range sibs {
+			sibs[i] = rapid.SliceOfN(rapid.Byte(), 32, 32).Draw(rt, "sib")
+		}
+		o12 = buildPathOutput(mk(1, 1)[0], sibs, byte(rapid.IntRange(0, 1).Draw(rt, "v2")), rapid.SliceOfN(rapid.Byte(), 32, 32).Draw(rt, "bh3"))
+		w.log = append(w.log, fmt.Sprintf("bridge 1 output 2 is a tree of depth %d known through one path", depth))
+	} else {
+		o12 = buildOutput(append(mk(1, sizeGen.Draw(rt, "n12")), o11.Tuples[0]), byte(rapid.IntRange(0, 1).Draw(rt, "v2")), rapid.SliceOfN(rapid.Byte(), 32, 32).Draw(rt, "bh3"))
+	}
 	propose(1, o12)
 	switch st := rapid.SampledFrom([]string{"final", "final", "mixed", "notfinal", "deleted", "reproposed"}).Draw(rt, "state"); st {
 	case "final":
@@ -176,7 +188,8 @@ var c03Rich, _ = math.NewIntFromString("1180591620717411303424") // 2^70
 
 var c03Kinds = []string{"none", "flip-storage", "flip-blockhash", "flip-proof", "version", "seq", "amount", "amount+2^64", "bridge", "index", "swap-from-to",
 	"other-storage", "other-blockhash", "drop-last", "drop-first", "dup-item", "swap-items", "extend", "empty-proof", "cut-to-inner", "other-pos-proof",
-	"from-case", "from-nul", "move-byte", "denom", "to-other-user", "dead-output", "inner-as-root", "to-uppercase"}
+	"from-case", "from-nul", "move-byte", "denom", "to-other-user", "dead-output", "inner-as-root", "to-uppercase",
+	"lengthen-blockhash", "lengthen-storage", "shorten-blockhash", "lengthen-version", "extend-many"}
 
 // perturb applies one perturbation kind in place; returns false if it does not apply.
 func (w *c03World) perturb(rt *rapid.T, kind string, m *ophosttypes.MsgFinalizeTokenWithdrawal, o *mOutput, pos int) bool {
@@ -259,6 +272,24 @@ func (w *c03World) perturb(rt *rapid.T, kind string, m *ophosttypes.MsgFinalizeT
 		m.WithdrawalProofs[i], m.WithdrawalProofs[i+1] = m.WithdrawalProofs[i+1], m.WithdrawalProofs[i]
 	case "extend":
 		m.WithdrawalProofs = append(m.WithdrawalProofs, rapid.SampledFrom([][]byte{make([]byte, 32), bytes.Repeat([]byte{0xff}, 32), append([]byte{}, m.StorageRoot...)}).Draw(rt, "ext"))
+	case "lengthen-blockhash":
+		// the committed 32 bytes followed by more bytes
+		m.LastBlockHash = append(m.LastBlockHash, rapid.SliceOfN(rapid.Byte(), 1, 40).Draw(rt, "tail")...)
+	case "lengthen-storage":
+		m.StorageRoot = append(m.StorageRoot, rapid.SliceOfN(rapid.Byte(), 1, 40).Draw(rt, "tail")...)
+	case "shorten-blockhash":
+		if len(m.LastBlockHash) == 0 {
+			return false
+		}
+		m.LastBlockHash = m.LastBlockHash[:rapid.IntRange(0, len(m.LastBlockHash)-1).Draw(rt, "keep")]
+	case "lengthen-version":
+		m.Version = append(m.Version, byte(rapid.IntRange(0, 255).Draw(rt, "vtail")))
+	case "extend-many":
+		// make the path longer than 64 items whatever its length was
+		n := rapid.IntRange(1, 70).Draw(rt, "nmore")
+		for i := 0; i < n; i++ {
+			m.WithdrawalProofs = append(m.WithdrawalProofs, rapid.SliceOfN(rapid.Byte(), 32, 32).Draw(rt, "more"))
+		}
 	case "empty-proof":
 		if len(m.WithdrawalProofs) == 0 {
 			return false
@@ -390,6 +421,13 @@ func TestC03Rapid(t *testing.T) {
 			}
 			c.Class("kind/" + k1)
 			c.Class("verdict/" + reason)
+			if o.Synth != nil {
+				if len(o.Synth) >= 64 {
+					c.Class("path-output/depth>=64")
+				} else {
+					c.Class("path-output/depth<64")
+				}
+			}
 			if rOK {
 				c.Class("accepted")
 			}
